@@ -16,14 +16,14 @@ LEVEL = "exploration"
 RULE = (
     "cases: Hypothesis programs = one constructor call (contents / size / initialized_size in all "
     "combinations incl. invalid ones, address None/0/k/near 2^64) followed by <= 30 ops: size=n (grow, "
-    "shrink above/to/below the stored byte count, 0), initialized_size=n (<= size), in-place byte and "
+    "shrink above/to/below the stored byte count, 0), initialized_size=n (below, at and above size), in-place byte and "
     "same-length slice edits, block offset/size edits (inside, straddling and beyond the stored bytes), "
     "address edits, boundary probes of contains_offset/contains_address, save+load; non-trivial = the "
     "history shrinks size below the stored byte count or has a block partly beyond the stored bytes; "
     "distinct = SHA-1 of canonical JSON"
 )
 ASSUMPTIONS = [
-    "initialized_size is only assigned values <= size (the property's precondition)",
+    "initialized_size assignments above the current size must be refused with ValueError (state unchanged) or make the size follow",
     "content edits keep the length (in-place item / same-length slice assignment) or replace the contents by bytes / bytearray no longer than size",
 ]
 REQUIRED_TAGS = {
@@ -168,12 +168,35 @@ def run_case(case):
                 m.size = v
                 bi.size = v
             elif name == "isize":
-                v = min(op["n"], m.size)
-                if v > len(m.data):
-                    m.data += bytes(v - len(m.data))
+                v = op["n"]
+                if v > m.size:
+                    # more initialized bytes than the interval is long: refused
+                    # (state unchanged, as the constructor refuses it) or the
+                    # size follows; stored bytes beyond size are never right
+                    res.tag("isize-above-size")
+                    nontrivial = True
+                    try:
+                        bi.initialized_size = v
+                        refused = False
+                    except ValueError:
+                        refused = True
+                    if not refused:
+                        if bi.size >= v and len(bi.contents) == v:
+                            m.size = bi.size
+                            m.data += bytes(v - len(m.data))
+                        else:
+                            res.fail(
+                                "C19:initialized_size-above-size-accepted",
+                                "%s: size=%r, initialized_size = %d accepted: %d stored bytes, size %r"
+                                % (where, m.size, v, len(bi.contents), bi.size),
+                            )
+                            return res
                 else:
-                    del m.data[v:]
-                bi.initialized_size = v
+                    if v > len(m.data):
+                        m.data += bytes(v - len(m.data))
+                    else:
+                        del m.data[v:]
+                    bi.initialized_size = v
             elif name == "byte":
                 if m.data and isinstance(bi.contents, bytearray):
                     i = op["i"] % len(m.data)
